@@ -4,7 +4,7 @@
 Require Extraction.
 Require Import ExtrOcamlBasic.
 From Moss Require Import FlatRun TreeRun Index OpenDir Codec FileFormat Previous PrevTree Faults Sync Iterator History Refs Crash IteratorIncl TreeInv.
-From Moss Require Owners OwnersScenarios OwnersRevert OwnersRevertScenarios.
+From Moss Require Owners OwnersScenarios OwnersRevert OwnersRevertScenarios OwnersProgress.
 Extraction Language OCaml.
 Extraction "model.ml" fstep fcheck finit calc_partial_start calc_target_top_level
   trstep trinit model_canon canonical store_canon reads_of ref_reads rnode_eqb t_coll_get
@@ -23,7 +23,8 @@ Extraction "model.ml" fstep fcheck finit calc_partial_start calc_target_top_leve
   OwnersScenarios.sc_close_collection_before_handles
   OwnersRevert.xrun_events OwnersRevert.xrun_nfiles OwnersRevertScenarios.sc_revert_previous_held
   OwnersRevertScenarios.sc_revert_child_previous_held OwnersRevertScenarios.sc_revert_previous_closed_first
-  OwnersRevertScenarios.sc_revert_child_only.
+  OwnersRevertScenarios.sc_revert_child_only
+  OwnersProgress.first_illegal OwnersProgress.xfirst_illegal.
 
 (* The persistence-round control-flow model (StoreOps.v) is extracted into a file of
    its own: its names (run, init, step, file, RFull ...) would clash with the flat model. *)
